@@ -25,7 +25,7 @@ func (e *Engine) setChan(st *State, ch *ChanVal, c *ChanContent) {
 func (e *Engine) heldLocks(st *State) []string {
 	var out []string
 	for k, n := range st.locks {
-		if n > 0 {
+		if n > 0 && !st.heldByOther(k) {
 			out = append(out, k)
 		}
 	}
@@ -34,6 +34,24 @@ func (e *Engine) heldLocks(st *State) []string {
 
 // blocked ends the path: the goroutine waits forever.
 func (e *Engine) blocked(st *State, what string, ins ssa.Instruction) int {
+	if st.goDepth > 0 {
+		// a goroutine that was started while its spawner waited has to wait itself: it is parked and
+		// the goroutine below it on the stack re-executes its own blocking instruction
+		idx := len(st.frames) - 1
+		for idx >= 0 && !st.frames[idx].goFrame {
+			idx--
+		}
+		if idx <= 0 {
+			unsupp("goroutine frame not found")
+		}
+		pk := &Parked{id: st.tid(), frames: append([]*Frame(nil), st.frames[idx:]...), epoch: st.epoch, what: what}
+		st.parked = append(st.parked[:len(st.parked):len(st.parked)], pk)
+		st.frames = st.frames[:idx]
+		st.goDepth--
+		st.goStack = st.goStack[:len(st.goStack)-1]
+		st.path = append(st.path, fmt.Sprintf("park g%d:%s", pk.id, what))
+		return stCont
+	}
 	if p := st.par; p != nil {
 		other := 1 - p.cur
 		if !p.done[other] && !p.waiting[other] {
@@ -47,30 +65,13 @@ func (e *Engine) blocked(st *State, what string, ins ssa.Instruction) int {
 			return stCont
 		}
 	}
-	if len(st.pendingGo) > 0 {
-		// goroutines spawned earlier have not run yet: run the oldest one now (one admissible
-		// schedule); afterwards the blocking instruction re-executes
-		g := st.pendingGo[0]
-		st.pendingGo = st.pendingGo[1:]
-		if g.fn.fn.Blocks != nil {
-			nf := e.newFrame(g.fn.fn, g.args, g.fn.bind)
-			nf.goFrame = true
-			st.frames = append(st.frames, nf)
-			st.goDepth++
-			st.path = append(st.path, "run-goroutine:"+g.fn.fn.Name())
-			return stCont
-		}
+	if e.runOther(st) {
+		return stCont
 	}
-	if p := st.par; p != nil && !p.done[1-p.cur] && p.waiting[1-p.cur] && st.goDepth == 0 {
+	if p := st.par; p != nil && !p.done[1-p.cur] && p.waiting[1-p.cur] {
 		o := e.obl("deadlock@"+siteFn(ins), "hang")
 		o.Checked++
 		e.reportViolation(st, o, tTrue, e.modelOf(st), site(ins), "both goroutines wait for each other: "+what)
-		st.finished = true
-		return stDone
-	}
-	if st.goDepth > 0 {
-		// a goroutine run on behalf of a waiting spawner waits itself: this schedule is not pursued
-		e.res.Cuts["goroutine-waits:"+what+"@"+siteFn(ins)]++
 		st.finished = true
 		return stDone
 	}
@@ -379,6 +380,7 @@ func (e *Engine) parThreadDone(st *State) int {
 // parProgress: the running thread changed shared synchronisation state; a parked thread may be able
 // to continue.
 func (e *Engine) parProgress(st *State) {
+	st.epoch++
 	if p := st.par; p != nil {
 		p.waiting[1-p.cur] = false
 	}
@@ -410,4 +412,37 @@ func (e *Engine) parYield(st *State, what string) (int, bool) {
 	e.pushFork(o)
 	st.path = append(st.path, "stay@"+what)
 	return 0, false
+}
+
+// runOther starts the oldest goroutine that has not run yet or resumes the oldest parked goroutine
+// for which something changed since it parked. The instruction of the frame below re-executes when
+// that goroutine finishes or parks.
+func (e *Engine) runOther(st *State) bool {
+	for len(st.pendingGo) > 0 {
+		g := st.pendingGo[0]
+		st.pendingGo = st.pendingGo[1:]
+		if g.fn.fn.Blocks == nil {
+			continue
+		}
+		nf := e.newFrame(g.fn.fn, g.args, g.fn.bind)
+		nf.goFrame = true
+		st.frames = append(st.frames, nf)
+		st.goDepth++
+		st.goSeq++
+		st.goStack = append(st.goStack, 1000+st.goSeq)
+		st.path = append(st.path, "run-goroutine:"+g.fn.fn.Name())
+		return true
+	}
+	for i, pk := range st.parked {
+		if pk.epoch < st.epoch {
+			rest := append([]*Parked(nil), st.parked[:i]...)
+			st.parked = append(rest, st.parked[i+1:]...)
+			st.frames = append(st.frames, pk.frames...)
+			st.goDepth++
+			st.goStack = append(st.goStack, pk.id)
+			st.path = append(st.path, fmt.Sprintf("resume g%d", pk.id))
+			return true
+		}
+	}
+	return false
 }
